@@ -173,6 +173,11 @@ def run_family(pid, focus, tiers, tier="quick", seed=0, replay_path=None, widen=
             envd = (rel.dask_sources(tabs, {"T1": ("from_pandas", c["np1"]), "T2": ("from_pandas", c["np2"])}) if which == "A"
                     else rel.dask_sources(tabs, {"T1": ("cuts", c["cuts1"], False), "T2": ("from_pandas", 1)}))
             extra["sort_input_nullkey_partition"] = rel.sort_input_nullkey_partition(c["q"], envd)
+        if "cum" in rel.ops_of(c["q"]):
+            tabs = rel.make_tables(c["dseed"])
+            envd = (rel.dask_sources(tabs, {"T1": ("from_pandas", c["np1"]), "T2": ("from_pandas", c["np2"])}) if which != "B"
+                    else rel.dask_sources(tabs, {"T1": ("cuts", c["cuts1"], False), "T2": ("from_pandas", 1)}))
+            extra["cum_input_allnull_partition"] = rel.cum_input_allnull_partition(c["q"], envd)
         chk.fail(clause, dict(pub, ops=rel.ops_of(c["q"]), layout=which, groupby_fs=rel.groupby_fs(c["q"]), errmsg=(tr.get("msgs") or {}).get(clause.split(":")[0], ""), **extra), {"msgs": tr.get("msgs"), "layout": which})
     chk.extra["unbuildable_queries"] = unb
     chk.extra["reference_failed"] = sum(1 for ln in lines if ln["kind"] != "truth" and not ln["ref"]["ok"])
